@@ -20,6 +20,7 @@ import (
 	"github.com/transparency-dev/witness/internal/client"
 	"github.com/transparency-dev/witness/internal/config"
 	"github.com/transparency-dev/witness/internal/feeder/sumdb"
+	"github.com/transparency-dev/witness/internal/verif/kit/asmunits"
 	"github.com/transparency-dev/witness/internal/verif/kit/ev"
 	"github.com/transparency-dev/witness/internal/verif/kit/gen"
 	"github.com/transparency-dev/witness/internal/verif/kit/refnote"
@@ -202,6 +203,11 @@ func main() {
 	tree := &reftree.Tree{Seed: uint64(run.Seed) + 1234, TagA: 1, TagB: 1, Fork: ^uint64(0)}
 	tree.Root(N + 10)
 	run.Exhaustive(false)
+	// the assembled service: one damaged answer per complete tile, correct answers ever after
+	run.Floor("assembled_progress_episodes", 5)
+	run.Units("asm_progress", run.Pick(6, 48), 6, func(unit int64, r *rand.Rand) {
+		asmunits.Progress(run, unit, r, "first_answer_to_each_full_tile_damaged")
+	})
 	run.Units("pairs", int(N), 0, func(unit int64, r *rand.Rand) {
 		to := uint64(unit) + 1
 		for from := uint64(1); from < to && !run.Aborted(); from++ {
